@@ -362,9 +362,9 @@ def toLines (items : List MenuItem) : Bytes :=
     else newLine Facts.opINCMP [v.target, v.choice] none none
   pre ++ newLine Facts.opHALT [] none none ++ post
 
-/-- `Batcher.MenuExit` (the item list is not cleared) -/
+/-- `Batcher.MenuExit`: writes the batch and starts the next one empty -/
 def menuExit (bt : Batcher) : Batcher × Bytes :=
-  if !bt.inMenu then (bt, []) else ({ bt with inMenu := false }, toLines bt.items)
+  if !bt.inMenu then (bt, []) else ({ items := [], inMenu := false }, toLines bt.items)
 
 /-- `vm.OpcodeIndex` with the names as explicit bytes (pinned to the regenerated facts below) -/
 def opTable : List (Bytes × Nat) :=
